@@ -1448,22 +1448,6 @@ impl<A: Ar> Exec<A> {
         let pre_cap = self.a().capacity();
         let pre_bytes = self.mem()[..pre.allocated as usize].to_vec();
         let cow_file_before = if self.cow && !self.ro { self.path.as_ref().and_then(|p| std::fs::read(p).ok()) } else { None };
-        if self.cfg.backend == Backend::Vec && (n as usize) > pre_cap && (n as usize) <= (1 << 20) {
-            // The heap is a source of nondeterminism of its own: what a fresh heap block contains depends on what
-            // the process freed before. Take it under control — a block of the size and alignments the new buffer
-            // can have is filled with a pattern and freed right before the call, so that a buffer that is not
-            // zeroed shows the pattern in every execution, the replay included.
-            for align in [8usize, 16, 64] {
-                unsafe {
-                    let l = std::alloc::Layout::from_size_align_unchecked(n as usize, align);
-                    let p = std::alloc::alloc(l);
-                    if !p.is_null() {
-                        std::ptr::write_bytes(p, 0xA5, n as usize);
-                        std::alloc::dealloc(p, l);
-                    }
-                }
-            }
-        }
         let r = {
             let a = self.arenas[idx].as_mut().unwrap();
             a.truncate_(n as usize)
